@@ -14,7 +14,7 @@ Shapes == UNION {ShapesOfRank(r, IF r >= HiRank THEN MaxDimHi ELSE MaxDim) : r \
 Pal(d) == IF RichPalette THEN AxisPalette(d) ELSE AxisPaletteSmall(d)
 
 LastK == IF steps = <<>> THEN "" ELSE steps[Len(steps)].op.k
-ViewOps == {"Slice", "T"}
+ViewOps == {"Slice", "T", "ShallowClone"}
 NViews == Cardinality({i \in 1..Len(steps) : steps[i].op.k \in ViewOps})
 OnlyViewsSoFar == \A i \in 2..Len(steps) : steps[i].op.k \in ViewOps
 V == Len(live)          \* the view under test: the most recent tensor
@@ -32,6 +32,8 @@ Next ==
                /\ Do(Op("Slice", V, sl))
           \/ /\ V = 1 \/ ~live[V].view \/ TRUE
              /\ \E p \in Perms(Len(live[V].shape)) : ~IsIdent(p) /\ Do(Op("T", V, p))
+          (* a shallow clone is a view of everything: same cells, its own access-pattern record *)
+          \/ "ShallowClone" \in Copies /\ LastK # "ShallowClone" /\ Do(Op("ShallowClone", V, <<>>))
     (* whole-tensor writes through the view *)
     \/ /\ Len(steps) >= 1 /\ OnlyViewsSoFar /\ LastOK
        /\ \/ "Memset" \in Writes /\ Do(Op("Memset", V, <<1>>))
